@@ -201,7 +201,7 @@ impl Check for C20 {
     type Case = Case;
     const ID: &'static str = "C20";
     fn runs(t: Tier) -> u64 {
-        t.pick(50_000, 3_000_000)
+        t.pick(100_000, 4_000_000)
     }
     fn generate(rng: &mut Rng, tier: Tier, idx: u64) -> Case {
         if let Some(c) = crate::c20x::maybe_gen_extract(rng, tier, idx) {
